@@ -4,7 +4,7 @@ from fractions import Fraction
 
 import numpy as np
 
-from .. import lib
+from .. import lib, pfile
 
 ID = 'C10'
 LEAN_MODULE = 'PncProofs.C10'
@@ -52,7 +52,7 @@ def _src(rng):
 
 def _recipe(rng):
     k = rng.choice(['copy', 'slice', 'slice', 'slice2', 'subset', 'rename', 'apply', 'apply', 'eval', 'mask', 'stack',
-                    'interp'])
+                    'interp', 'slicerc'])
     return [k] + [rng.randrange(1 << 20) for _ in range(6)]
 
 
@@ -184,7 +184,7 @@ def resolve(recipe, f):
     names = [n for n in f.variables if n != 'TFLAG']
     data = [n for n in names if tuple(f.variables[n].dimensions)[:2] == ('TSTEP', 'LAY')]
 
-    def window(d, a, b, c):
+    def window(d, a, b, c, second=False):
         L = dims[d]
         if L == 0:
             return ['s', None, None]
@@ -193,8 +193,8 @@ def resolve(recipe, f):
             st = [2, 3, -1, -2][b % 4] if d != 'TSTEP' else [2, 3][b % 2]     # reversed time is outside the domain
             return ['t', None, None, st] if a % 2 else ['t', a % L, None, st]
         if m >= 9:
-            if k == 'slice2':       # index lists on two dimensions select points, not a window
-                return ['s', None, None]
+            if second:       # index lists on two dimensions select points, not a window: at most one list
+                return ['i', a % (2 * L) - L] if a % 3 else ['s', None, None]
             n = 1 + a % L
             return ['l', sorted({(a + 3 * j) % L for j in range(n)})] if m == 9 else ['l', [(a + j) % L - L for j in range(n)]]
         if m < 3:
@@ -212,13 +212,26 @@ def resolve(recipe, f):
         return ['s', lo, hi]
     if k == 'copy':
         return ['copy']
+    if k == 'slicerc':
+        # one index list next to an integer, a one-cell window or a second integer on the two horizontal axes:
+        # still a window of the grid (only two lists select points)
+        if not ('ROW' in dims and 'COL' in dims and dims['ROW'] and dims['COL']):
+            return ['copy']
+        d1, d2 = ('ROW', 'COL') if r[0] % 2 else ('COL', 'ROW')
+        L1, L2 = dims[d1], dims[d2]
+        n = 1 + r[1] % L1
+        lst = ['l', sorted({(r[1] + 3 * j) % L1 for j in range(n)})]
+        i2 = r[2] % L2
+        other = [['i', i2], ['i', i2 - L2], ['s', i2, i2 + 1], ['s', None, None]][r[3] % 4]
+        first = lst if r[4] % 4 else ['i', r[1] % L1]
+        return ['slice', [[d1, first], [d2, other]]]
     if k in ('slice', 'slice2'):
         ds = sorted(dims)
         d1 = ds[r[0] % len(ds)]
         kw = [[d1, window(d1, r[1], r[2], r[3])]]
         if k == 'slice2' and len(ds) > 1:
             d2 = [d for d in ds if d != d1][r[4] % (len(ds) - 1)]
-            kw.append([d2, window(d2, r[5], r[1], r[2])])
+            kw.append([d2, window(d2, r[5], r[1], r[2], second=True)])
         return ['slice', kw]
     if k == 'subset':
         if not names:
@@ -277,7 +290,7 @@ def impl(case):
     with lib.pnc_warnings():
         f, path = build(case['src'])
         try:
-            res = dict(init=obs(f), init_bad=coherent(f), ops=[], states=[])
+            res = dict(init=obs(f), init_bad=coherent(f), init_wf=pfile.wellformed(f), ops=[], states=[])
             ops = case.get('ops')
             for i in range(len(ops) if ops is not None else len(case['recipes'])):
                 op = ops[i] if ops is not None else resolve(case['recipes'][i], f)
@@ -290,7 +303,8 @@ def impl(case):
                 except Exception as e:
                     res['states'].append(dict(err=type(e).__name__, msg=str(e)[:100]))
                     break
-                res['states'].append(dict(st=obs(g), bad=coherent(g)))
+                res['states'].append(dict(st=obs(g), bad=coherent(g), wf=pfile.wellformed(g),
+                                          tstep_unlimited=bool(g.dimensions['TSTEP'].isunlimited()) if 'TSTEP' in g.dimensions else None))
                 f = g
             return res
         finally:
